@@ -1,9 +1,22 @@
-"""C01 — assigned values always lie in the trait's declared domain (see validate_common.py, spec/Validate.tla)."""
+"""C01 — assigned values always lie in the trait's declared domain (see validate_common.py, spec/Validate.tla; Array /
+CArray / ArrayOrNone traits: array_common.py, spec/ArrayTrait.tla)."""
+import json
+
 from . import validate_common as vc
+from . import array_common as ac
 
 
 def run(rep, tier, seed):
     vc.run_for(rep, tier, seed, "C01")
+    rule = rep.rule
+    ac.run_for(rep, tier, seed)
+    rep.rule = rule + ("; Array / CArray / ArrayOrNone: every (dtype, shape pattern, casting rule, value) state of ArrayTraitMC "
+                       "instantiated with numpy values, judged by TLC against Py / InDomain / Default of ArrayTrait.tla")
 
 
-replay = vc.replay
+def replay(rep, path):
+    obj = json.load(open(path))
+    rec = (obj.get("case") or {}).get("record") or {}
+    if "v" in rec and "tok" not in rec:
+        return ac.replay_record(rec)
+    return vc.replay(rep, path)
